@@ -16,6 +16,8 @@ pub fn step_bound(n: usize) -> u64 {
 
 /// An encode call may plan a small fixed number of times (the tree at hand plans once).
 pub const ENCODE_RUNS: u64 = 3;
+/// ... and its planner work may be that of a few planning passes over the same input.
+pub const ENCODE_PASSES: u64 = 6;
 
 pub fn eval(cfg: &Cfg, input: &[u8], st: &mut Stats) -> Result<(), String> {
     let list = cfg.list.to_list();
@@ -48,7 +50,16 @@ pub fn eval(cfg: &Cfg, input: &[u8], st: &mut Stats) -> Result<(), String> {
     if steps > ENCODE_RUNS * step_bound(n) {
         return Err(format!("encoding {} bytes took {} plan steps in {} planner runs (bound {} x {})", n, steps, runs, ENCODE_RUNS, step_bound(n)));
     }
+    // ... and relative to one planning pass over the same input: the absolute bound assumes 36 live
+    // plans all the time, real passes need a tenth of it, so an encoder that plans the rest of the
+    // input again after every segment would stay below it for inputs of a few hundred bytes
+    if steps > ENCODE_PASSES * s.steps + ENCODE_PASSES * step_bound(0) {
+        return Err(format!("encoding {} bytes took {} plan steps in {} planner runs, one planning pass over the same input takes {} (more than {} passes)", n, steps, runs, s.steps, ENCODE_PASSES));
+    }
     st.max("planner_runs_per_encode", runs);
+    if s.steps > 0 {
+        st.max("encode_steps_per_plan_steps_x100", steps * 100 / s.steps);
+    }
     Ok(())
 }
 
@@ -161,11 +172,12 @@ pub fn run(ctx: &Ctx) -> i32 {
     let cov = json!({
         "evaluations": ctx.evaluations(),
         "distinct_nontrivial": ctx.counter("nontrivial"),
-        "rule": format!("all cases distinct; non-trivial = more than 6 live plans at some point. Oracle: live plans <= {} and steps <= 216*(n+1)+6 per planning call, and at most {} times that for all planner runs of one encode call (cumulative hook counters). Sweep: {}", MAX_LIVE, ENCODE_RUNS, gen::describe_parts(&parts)),
+        "rule": format!("all cases distinct; non-trivial = more than 6 live plans at some point. Oracle: live plans <= {} and steps <= 216*(n+1)+6 per planning call, and at most {} times that, and at most {} times the steps of one planning pass over the same input (+ {}), for all planner runs of one encode call (cumulative hook counters). Sweep: {}", MAX_LIVE, ENCODE_RUNS, ENCODE_PASSES, ENCODE_PASSES * step_bound(0), gen::describe_parts(&parts)),
         "exhaustive": true,
         "max_live_plans_observed": ctx.maximum("live_plans"),
         "max_steps_per_char_x100_observed": ctx.maximum("steps_per_char_x100"),
         "max_planner_runs_per_encode_observed": ctx.maximum("planner_runs_per_encode"),
+        "max_encode_steps_per_plan_steps_x100_observed": ctx.maximum("encode_steps_per_plan_steps_x100"),
     });
     ctx.finish("exploration", cov, vec![
         "hook: feature verif-hooks counts Plan::step calls and live plans inside optimize() (additive instrumentation)".into(),
